@@ -273,6 +273,7 @@ impl ServerAeadCodec {
     spec fn wf(&self) -> bool {
         (self.decode_state matches vsrv__DecodeState::Ready(h, s, d) ==> d.wf())
         && (self.encode_state matches vsrv__EncodeState::Ready(e) ==> e.wf())
+        && (self.decode_state is Init ==> !self.connected)
     }
     fn encode(
         item: BytesMut,
@@ -451,6 +452,9 @@ impl ServerAeadCodec {
             // the first item of a TCP flow carries the target address, later ones never do
             (r matches Ok(Some(InboundIn::ConnectTcp(_, _)))) ==> (!(old(self).decode_state is Ready && old(self).connected) && final(self).connected),
             (r matches Ok(Some(InboundIn::RelayTcp(_)))) ==> old(self).connected,
+            //#C04 C01
+            // `connected` means exactly that the item carrying the target address has been delivered: it is never set by a call that is still waiting
+            (final(self).connected && !old(self).connected) ==> r matches Ok(Some(_)),
     {
         match self.decode_state {
             vsrv__DecodeState::Init => {
